@@ -469,7 +469,10 @@ def chord_obligations(ix, R, site):
     b['k'] = k_alloc.value
     why = []
     if len(stores) != len(want):
-        why.append('%d stores into the chord array, expected %d' % (len(stores), len(want)))
+        # another way of filling the array (one difference of two slices of a precomputed half-chord, a loop ...):
+        # not read by this rule
+        raise AnalysisError('%d stores into the chord array; this rule reads the three-statement form (first shell, '
+                            'outer half-chords, minus inner half-chords)' % len(stores))
     else:
         for e, (tg, op, val) in zip(stores, want):
             eop = 'Assign' if e.op is None else e.op
